@@ -32,6 +32,14 @@ def run(tier):
         raise core.ToolError("nothing generated")
     v.add(rep["mismatches"])
     os.remove(r["out_path"])
+    # design level: the week arithmetic behind format_timestamp (%U %W, ISO week date) against its defining
+    # properties on every day from 1970-01-01 to 2199-12-31 (a violated invariant means the SPECIFICATION is wrong)
+    rs = core.tlc("MC_Strftime", "SPECIFICATION Spec\nCONSTANTS\n  LastDay = 84005\nINVARIANTS Ranges Jan4Dec28 ThursdayRule Steps Known\nCHECK_DEADLOCK FALSE\n",
+                  "c15-strftime", workers=2, timeout=1800, xss=True)
+    if rs["distinct"] != 84006:
+        raise core.ToolError("MC_Strftime walked %d days instead of 84006" % rs["distinct"])
+    core.log("  MC_Strftime: week numbers and ISO week dates agree with their defining properties on %d days" % rs["distinct"])
+    os.remove(rs["out_path"])
     n = 12000 if tier == "quick" else 150000
     tev = tbad = 0
     old_tz = os.environ.get("TZ")
